@@ -121,7 +121,7 @@ Proof. intros ms H. unfold wf_modules, mkey, mkey_k, modules_key_has_path. apply
 Lemma wf_types_of_distinct : forall ts, types_distinct ts -> wf_types ts.
 Proof. intros ts H. unfold wf_types, tkey, tkey_k, types_key_has_locs. apply NoDup_map_pair_r. exact H. Qed.
 Lemma wf_globals_of_distinct : forall gs, globals_distinct gs -> wf_globals gs.
-Proof. intros gs H. unfold wf_globals, gkey, gkey_k, globals_key_has_decl_id. apply NoDup_map_pair_r. exact H. Qed.
+Proof. intros gs H. unfold wf_globals, gkey, gkey_k, gkey_n, globals_key_exact_name, globals_key_has_decl_id. apply NoDup_map_pair_r. exact H. Qed.
 
 (** * reproducibility *)
 Lemma modules_reproducible : forall ms ms',
@@ -143,7 +143,7 @@ Qed.
 Lemma globals_reproducible : forall gs gs',
   wf_globals gs -> Permutation gs gs' -> export_globals gs = export_globals gs'.
 Proof.
-  intros gs gs' Hwf Hp. unfold export_globals, export_globals_f, globals_sorted, sort_if.
+  intros gs gs' Hwf Hp. unfold export_globals, export_globals_f, export_globals_n, globals_sorted, sort_if. fold gkey_k. fold gkey.
   rewrite (isort_perm_invariant _ _ gkey gkey_cmp gkey_total_order
              (filter g_main gs) (filter g_main gs') Hwf (perm_filter _ _ _ _ Hp)).
   reflexivity.
@@ -216,7 +216,7 @@ Qed.
 
 Lemma gkey_le_name : forall x y, lek gkey gkey_cmp x y -> lek g_name gname_cmp x y.
 Proof.
-  unfold lek, gkey, gkey_k, gkey_cmp, pair_cmp. cbn [fst snd]. intros x y H Hgt. apply H.
+  unfold lek, gkey, gkey_k, gkey_n, globals_key_exact_name, gkey_cmp, pair_cmp. cbn [fst snd]. intros x y H Hgt. apply H.
   unfold gname_cmp in Hgt. rewrite Hgt. reflexivity.
 Qed.
 
@@ -343,6 +343,24 @@ Proof.
   - intros -> gs n Hex. apply (globals_once gs n Hex).
 Qed.
 
+
+(** the de-duplication needs the sort to keep equal names adjacent: sorted by the exact name *)
+Definition gS1 : global_decl := {| g_name := Some [83]; g_path := Some [[97]]; g_pos := 0; g_line := 1; g_main := true; g_typed := true |}.
+Definition gs1 : global_decl := {| g_name := Some [115]; g_path := Some [[97]]; g_pos := 11; g_line := 2; g_main := true; g_typed := true |}.
+Definition gS2 : global_decl := {| g_name := Some [83]; g_path := Some [[98]]; g_pos := 0; g_line := 1; g_main := true; g_typed := true |}.
+
+Lemma globals_once_iff_sort_refines_dedup : forall exact,
+  (forall gs n, (exists g, In g gs /\ g_main g = true /\ g_typed g = true /\ g_name g = Some n) ->
+     occ g_name gname_cmp (Some n) (export_globals_n exact true true gs) = 1%nat) <-> exact = true.
+Proof.
+  intros exact. split.
+  - intros H. destruct exact; [reflexivity|]. exfalso.
+    specialize (H [gS1; gs1; gS2] [83]).
+    assert (exists g, In g [gS1; gs1; gS2] /\ g_main g = true /\ g_typed g = true /\ g_name g = Some [83]) as Hex.
+    { exists gS1. cbn. auto. }
+    specialize (H Hex). vm_compute in H. discriminate.
+  - intros -> gs n Hex. apply (globals_once gs n Hex).
+Qed.
 
 (** * content merged in analysis order *)
 Lemma split_class_content_reproducible : forall parts parts',
